@@ -371,6 +371,17 @@ func runHookFailure(a args, idx int) {
 	later.Name = "later"
 	later.Context = "locked"
 	st = append(st, &scheduler.Stage{Name: "later", Task: later, DependsOn: []string{"h0", "h1", "h2"}, AllowFailure: true})
+	// a task (not the stage) that tolerates its failing commands: every command runs once, the stage completes
+	tol := task.FromCommands("true", "false", "exit 3", "true")
+	tol.Name = "tolerant"
+	tol.AllowFailure = true
+	if idx%3 == 0 {
+		tol.Variations = []map[string]string{{"V": "1"}, {"V": "2"}}
+	}
+	aft := task.FromCommands("true")
+	aft.Name = "after-tolerant"
+	aftStage := &scheduler.Stage{Name: "after-tolerant", Task: aft, DependsOn: []string{"tolerant"}}
+	st = append(st, &scheduler.Stage{Name: "tolerant", Task: tol}, aftStage)
 	interactive := idx%2 == 1
 	if interactive {
 		pr, pw, err := os.Pipe()
@@ -398,8 +409,12 @@ func runHookFailure(a args, idx int) {
 	select {
 	case <-done:
 	case <-time.After(45 * time.Second):
-		out.Viol("C03", "schedule-did-not-return/hook-failure", "a pipeline whose commands all terminate (a context before-hook fails for some stages"+map[bool]string{true: "; an interactive task on an idle stdin", false: ""}[interactive]+") did not return within 45 s", cas)
+		out.Viol("C03", "schedule-did-not-return/hook-failure", "a pipeline whose commands all terminate (a context before-hook fails for some stages; a task with allow_failure has failing commands"+map[bool]string{true: "; an interactive task on an idle stdin", false: ""}[interactive]+") did not return within 45 s", cas)
+		go sch.Cancel() // whatever is still going round is stopped, the workload goes on
 		return
+	}
+	if rs := aftStage.ReadStatus(); rs != scheduler.StatusDone {
+		out.Viol("C03", "eligible-stage-not-run/after-tolerant-task", "stage after-tolerant depends on a stage whose task tolerates its failing commands; it is "+statusName(rs)+" after Schedule returned", cas)
 	}
 	for _, s := range st {
 		if rs := s.ReadStatus(); rs == scheduler.StatusWaiting || rs == scheduler.StatusRunning {
